@@ -1,8 +1,10 @@
 /-
 C06 — Splitting a file and writing it back is the identity.
-(line, char, symbol here; JS-string and attribute splitters: C06js / C06attrs below when modelled)
+(all five splitters; for the JS-string splitter non-emptiness of the atoms is checked by the monitor only)
 -/
 import LithiumProofs.Load
+import LithiumProofs.SplitJs
+import LithiumProofs.SplitAttrs
 
 namespace Load
 
@@ -29,6 +31,21 @@ theorem C06_roundtrip_char (d : Bytes) (t : Testcase) (h : loadChar d = .ok t) :
     simp only [h0, Except.map, Except.ok.injEq] at h
     subst h
     exact charPost_ok t0 d (loadWith_ok _ splitChar_ok d t0 h0)
+
+/-- attribute mode -/
+theorem C06_roundtrip_attrs (d : Bytes) (t : Testcase) (h : Attrs.loadAttrs d = .ok t) :
+    t.content = d ∧ (∀ p ∈ t.parts, p ≠ []) ∧ t.WF :=
+  loadWith_ok _ Attrs.splitAttrs_ok d t h
+
+/-- the attribute splitter never raises: the only failures are the two marker errors -/
+theorem C06_no_internal_error_attrs (d : Bytes) (w : String) : Attrs.loadAttrs d ≠ .error (.internal w) :=
+  loadWith_no_internal _ (fun x => by unfold Attrs.splitAttrs; simp only; split <;> exact ⟨_, rfl⟩) d w
+
+/-- JS-string mode: the bytes are reproduced and every part has exactly one flag (that no atom is
+empty is checked on the real code by the monitor, not proved for this splitter) -/
+theorem C06_roundtrip_jsstr_partial (d : Bytes) (t : Testcase) (h : Js.loadJs d = .ok t) :
+    t.content = d ∧ t.WF :=
+  loadWith_cat _ (fun x s hs => Js.splitJs_cat x s hs) d t h
 
 /-- the only failures of these three loaders are the two marker errors -/
 theorem C06_no_internal_error (d : Bytes) (w : String) (B A : List UInt8) :
